@@ -140,9 +140,9 @@ LEVEL_TEXT = ("Machine-checked proof about a model, tied to the code. (1) For ev
               "including the 128-bit header, on every trace over 768 representative input words (C45_netlist_meets_spec, "
               "C45_netlist_exactly_once; certified product reachability), and compared with the model on random full-width "
               "fields (correspondence, not a proof).")
-LEVEL_NOTE = ("The unchanged tree VIOLATES the property: in DISPATCH_REQUESTS send_erdy selects state SEND_NRDY, so an ERDY request "
-              "produces an NRDY packet and SEND_ERDY is unreachable (findings/C45-erdy.json, candidate patch findings/C45-erdy.diff); "
-              "the check exits 1 on the unchanged tree and 0 with the patch. The R tie quantifies over a finite representative "
+LEVEL_NOTE = ("Defect found by this check in the tree as first examined: in DISPATCH_REQUESTS send_erdy selected state SEND_NRDY, so an ERDY "
+              "request produced an NRDY packet and SEND_ERDY was unreachable (findings/C45-erdy.json, patch findings/C45-erdy.diff); fixed "
+              "in /repo by commit 6d732d1 -- the check exits 1 before that commit and 0 on the current tree. The R tie quantifies over a finite representative "
               "alphabet (all strobe/ready combinations, 24 field patterns), not over all 2^25 words. "
               "Trusted: Coq kernel + vm_compute, Amaranth elaboration, nir2coq.py/Netlist.v (validated each run against pysim).")
 TECHNIQUE = ("Rocq proof: simulation relation to a one-slot specification machine + trace theorem (requests accepted = headers "
